@@ -48,7 +48,7 @@ pub fn c08_system(pid: &'static str, ch: u8, report: Report, values: &[u8]) -> P
             sys.alphabet.push((n, v));
         }
     }
-    sys.noncontrib = noncontrib_small::<ControlChange14BitMessageScanner>(ch);
+    sys.others = noncontrib_small::<ControlChange14BitMessageScanner>(ch);
     sys
 }
 
@@ -83,8 +83,13 @@ pub fn run_c08(chk: &Check, tier: Tier) {
 // C07
 // ---------------------------------------------------------------------------------------------
 
-fn vio(chk: &Check, rule: &str, cls: &str, case: String, detail: String) {
-    chk.violate(Violation::new(rule, format!("C07/{}/{}", rule, cls), detail).with_case(case));
+macro_rules! vio {
+    ($chk:expr, $rule:expr, $cls:expr, $case:expr, $detail:expr) => {{
+        let sig = format!("C07/{}/{}", $rule, $cls).replace(' ', "_");
+        if !$chk.flooded(&sig) {
+            $chk.violate(Violation::new($rule, sig, $detail).with_case($case));
+        }
+    }};
 }
 
 fn c07_encoder(chk: &Check) {
@@ -96,7 +101,7 @@ fn c07_encoder(chk: &Check) {
             for v in [0u16, 1, 8191, 16383] {
                 let r = catch(|| ControlChange14BitMessage::new(ch(c), cn(n), u14(v)));
                 if r.is_ok() != (n < 32) {
-                    vio(chk, "constructor-accepts-iff-msb-controller<32", "new", format!("cc14new|{}|{}|{}", c, n, v),
+                    vio!(chk, "constructor-accepts-iff-msb-controller<32", "new", format!("cc14new|{}|{}|{}", c, n, v),
                         format!("ControlChange14BitMessage::new(ch {}, cn {}, {}) panicked={} but controller<32 is {}", c, n, v, r.is_err(), n < 32));
                 }
             }
@@ -110,7 +115,7 @@ fn c07_encoder(chk: &Check) {
                     let m = ControlChange14BitMessage::new(ch(c), cn(n), u14(v));
                     let acc = (m.channel().get(), m.msb_controller_number().get(), m.lsb_controller_number().get(), m.value().get());
                     if acc != (c, n, n + 32, v) {
-                        vio(chk, "accessors-return-arguments", "accessors", format!("cc14|{}|{}|{}", c, n, v), format!("new(ch {}, cn {}, {}) reports (channel, msb, lsb, value) = {:?}", c, n, v, acc));
+                        vio!(chk, "accessors-return-arguments", "accessors", format!("cc14|{}|{}|{}", c, n, v), format!("new(ch {}, cn {}, {}) reports (channel, msb, lsb, value) = {:?}", c, n, v, acc));
                     }
                     let want = [(0xB0 | c, n, (v >> 7) as u8), (0xB0 | c, n + 32, (v & 0x7f) as u8)];
                     let r: [RawShortMessage; 2] = m.to_short_messages();
@@ -128,14 +133,14 @@ fn c07_encoder(chk: &Check) {
                     ];
                     for (k, g) in got.iter().enumerate() {
                         if *g != want {
-                            vio(chk, "encoding", ["Raw", "Structured", "Foreign3", "Into<[Raw;2]>", "Into<[Structured;2]>"][k], format!("cc14|{}|{}|{}", c, n, v),
+                            vio!(chk, "encoding", ["Raw", "Structured", "Foreign3", "Into<[Raw;2]>", "Into<[Structured;2]>"][k], format!("cc14|{}|{}|{}", c, n, v),
                                 format!("new(ch {}, cn {}, {}) encodes to {:?}, expected {:?}", c, n, v, g, want));
                         }
                     }
                 }
             });
             if let Err(p) = r {
-                vio(chk, "panics-on-valid-input", "encoder", format!("cc14|{}|{}|*", c, n), format!("encoder/accessors panicked for ch {} cn {}: {}", c, n, p));
+                vio!(chk, "panics-on-valid-input", "encoder", format!("cc14|{}|{}|*", c, n), format!("encoder/accessors panicked for ch {} cn {}: {}", c, n, p));
             }
         }
         evals.fetch_add(32 * 16384 * 6, Ordering::Relaxed);
@@ -159,7 +164,7 @@ fn c07_inversion(chk: &Check, c: u8, states: &[ControlChange14BitMessageScanner]
                     let o1 = sc.feed(&enc[0]);
                     let o2 = sc.feed(&enc[1]);
                     if o1.is_some() || o2 != Some(m) {
-                        vio(chk, "scanner-inverts-encoder", if o1.is_some() { "first-feed-reports" } else if o2.is_none() { "second-feed-silent" } else { "wrong-message" },
+                        vio!(chk, "scanner-inverts-encoder", if o1.is_some() { "first-feed-reports" } else if o2.is_none() { "second-feed-silent" } else { "wrong-message" },
                             format!("cc14inv|{}|{}|{}|state{}", c, k, v, si),
                             format!("prior scanner state {:?}; feeding the encoding of (ch {}, cn {}, value {}) returned {:?} then {:?}", st, c, k, v, o1, o2));
                     }
@@ -167,7 +172,7 @@ fn c07_inversion(chk: &Check, c: u8, states: &[ControlChange14BitMessageScanner]
             }
         });
         if let Err(p) = r {
-            vio(chk, "panics-on-valid-input", "inversion", format!("cc14inv|{}|state{}", c, si), format!("inversion from state {:?} panicked: {}", st, p));
+            vio!(chk, "panics-on-valid-input", "inversion", format!("cc14inv|{}|state{}", c, si), format!("inversion from state {:?} panicked: {}", st, p));
         }
         n.fetch_add((controllers.len() * values.len()) as u64, Ordering::Relaxed);
     });
